@@ -3,10 +3,15 @@
    (anchored re.search, then the un-anchored re.sub pass that calls _get_parsed_values on every match),
    _get_parsed_value / _get_parsed_locale_value and _check_parsed.
    `Raise E_OutOfFuel` means "outside the modelled fragment" (dispatch answers [2]); the harness never sends such inputs.
-   Assumptions (listed in tools/props/C08.py): \d is ASCII [0-9]; int() gets ASCII digits; X/x (float timestamps) and
-   non-ASCII lower-casing (token a) are not modelled.  No proofs here. *)
+   Assumptions (listed in tools/props/C08.py): \d is ASCII [0-9]; int() gets ASCII digits; non-ASCII lower-casing (token a)
+   is not modelled.  The timestamp tokens X / x are modelled for integer text below 10^15 in absolute value (what format()
+   renders): float(text) is exact there and str() of the float has the digits of text/1 resp. text/1000, see ts_of_text;
+   X with a fraction part is outside the fragment.  The broken-down time comes from helpers.local_time — the translated
+   pure-Python function (Gen/Helpers.v py_local_time) or the hand model of the compiled one (Model/RustHelpers.v
+   rs_local_time), selected by the backend flag.  No proofs here. *)
 From Coq Require Import ZArith List Bool.
 From PV Require Import Lib.PyBase Spec.Cal Gen.RustConstants Model.FormatterBase Gen.FormatterTables Gen.LocaleTables Model.Formatter.
+From PV Require Import Gen.Helpers Model.RustHelpers.
 Import ListNotations.
 Open Scope Z_scope.
 
@@ -212,22 +217,25 @@ Inductive tzv := TzFixed (off : Z) | TzNamed (name : str).
 
 Record parsed := mkparsed {
   p_year : option Z; p_month : option Z; p_day : option Z; p_hour : option Z; p_minute : option Z; p_second : option Z;
-  p_micro : option Z; p_tz : option tzv; p_quarter : option Z; p_dow : option Z; p_doy : option Z; p_pm : option bool }.
+  p_micro : option Z; p_tz : option tzv; p_quarter : option Z; p_dow : option Z; p_doy : option Z; p_pm : option bool;
+  (* parsed["timestamp"], a float in the code: kept as (math.floor(ts), the microseconds _check_parsed reads off str(ts)) *)
+  p_ts : option (Z * Z) }.
 
-Definition parsed0 : parsed := mkparsed None None None None None None None None None None None None.
+Definition parsed0 : parsed := mkparsed None None None None None None None None None None None None None.
 
-Definition set_year v p := mkparsed v (p_month p) (p_day p) (p_hour p) (p_minute p) (p_second p) (p_micro p) (p_tz p) (p_quarter p) (p_dow p) (p_doy p) (p_pm p).
-Definition set_month v p := mkparsed (p_year p) v (p_day p) (p_hour p) (p_minute p) (p_second p) (p_micro p) (p_tz p) (p_quarter p) (p_dow p) (p_doy p) (p_pm p).
-Definition set_day v p := mkparsed (p_year p) (p_month p) v (p_hour p) (p_minute p) (p_second p) (p_micro p) (p_tz p) (p_quarter p) (p_dow p) (p_doy p) (p_pm p).
-Definition set_hour v p := mkparsed (p_year p) (p_month p) (p_day p) v (p_minute p) (p_second p) (p_micro p) (p_tz p) (p_quarter p) (p_dow p) (p_doy p) (p_pm p).
-Definition set_minute v p := mkparsed (p_year p) (p_month p) (p_day p) (p_hour p) v (p_second p) (p_micro p) (p_tz p) (p_quarter p) (p_dow p) (p_doy p) (p_pm p).
-Definition set_second v p := mkparsed (p_year p) (p_month p) (p_day p) (p_hour p) (p_minute p) v (p_micro p) (p_tz p) (p_quarter p) (p_dow p) (p_doy p) (p_pm p).
-Definition set_micro v p := mkparsed (p_year p) (p_month p) (p_day p) (p_hour p) (p_minute p) (p_second p) v (p_tz p) (p_quarter p) (p_dow p) (p_doy p) (p_pm p).
-Definition set_tz v p := mkparsed (p_year p) (p_month p) (p_day p) (p_hour p) (p_minute p) (p_second p) (p_micro p) v (p_quarter p) (p_dow p) (p_doy p) (p_pm p).
-Definition set_quarter v p := mkparsed (p_year p) (p_month p) (p_day p) (p_hour p) (p_minute p) (p_second p) (p_micro p) (p_tz p) v (p_dow p) (p_doy p) (p_pm p).
-Definition set_dow v p := mkparsed (p_year p) (p_month p) (p_day p) (p_hour p) (p_minute p) (p_second p) (p_micro p) (p_tz p) (p_quarter p) v (p_doy p) (p_pm p).
-Definition set_doy v p := mkparsed (p_year p) (p_month p) (p_day p) (p_hour p) (p_minute p) (p_second p) (p_micro p) (p_tz p) (p_quarter p) (p_dow p) v (p_pm p).
-Definition set_pm v p := mkparsed (p_year p) (p_month p) (p_day p) (p_hour p) (p_minute p) (p_second p) (p_micro p) (p_tz p) (p_quarter p) (p_dow p) (p_doy p) v.
+Definition set_year v p := mkparsed v (p_month p) (p_day p) (p_hour p) (p_minute p) (p_second p) (p_micro p) (p_tz p) (p_quarter p) (p_dow p) (p_doy p) (p_pm p) (p_ts p).
+Definition set_month v p := mkparsed (p_year p) v (p_day p) (p_hour p) (p_minute p) (p_second p) (p_micro p) (p_tz p) (p_quarter p) (p_dow p) (p_doy p) (p_pm p) (p_ts p).
+Definition set_day v p := mkparsed (p_year p) (p_month p) v (p_hour p) (p_minute p) (p_second p) (p_micro p) (p_tz p) (p_quarter p) (p_dow p) (p_doy p) (p_pm p) (p_ts p).
+Definition set_hour v p := mkparsed (p_year p) (p_month p) (p_day p) v (p_minute p) (p_second p) (p_micro p) (p_tz p) (p_quarter p) (p_dow p) (p_doy p) (p_pm p) (p_ts p).
+Definition set_minute v p := mkparsed (p_year p) (p_month p) (p_day p) (p_hour p) v (p_second p) (p_micro p) (p_tz p) (p_quarter p) (p_dow p) (p_doy p) (p_pm p) (p_ts p).
+Definition set_second v p := mkparsed (p_year p) (p_month p) (p_day p) (p_hour p) (p_minute p) v (p_micro p) (p_tz p) (p_quarter p) (p_dow p) (p_doy p) (p_pm p) (p_ts p).
+Definition set_micro v p := mkparsed (p_year p) (p_month p) (p_day p) (p_hour p) (p_minute p) (p_second p) v (p_tz p) (p_quarter p) (p_dow p) (p_doy p) (p_pm p) (p_ts p).
+Definition set_tz v p := mkparsed (p_year p) (p_month p) (p_day p) (p_hour p) (p_minute p) (p_second p) (p_micro p) v (p_quarter p) (p_dow p) (p_doy p) (p_pm p) (p_ts p).
+Definition set_quarter v p := mkparsed (p_year p) (p_month p) (p_day p) (p_hour p) (p_minute p) (p_second p) (p_micro p) (p_tz p) v (p_dow p) (p_doy p) (p_pm p) (p_ts p).
+Definition set_dow v p := mkparsed (p_year p) (p_month p) (p_day p) (p_hour p) (p_minute p) (p_second p) (p_micro p) (p_tz p) (p_quarter p) v (p_doy p) (p_pm p) (p_ts p).
+Definition set_doy v p := mkparsed (p_year p) (p_month p) (p_day p) (p_hour p) (p_minute p) (p_second p) (p_micro p) (p_tz p) (p_quarter p) (p_dow p) v (p_pm p) (p_ts p).
+Definition set_pm v p := mkparsed (p_year p) (p_month p) (p_day p) (p_hour p) (p_minute p) (p_second p) (p_micro p) (p_tz p) (p_quarter p) (p_dow p) (p_doy p) v (p_ts p).
+Definition set_ts v p := mkparsed (p_year p) (p_month p) (p_day p) (p_hour p) (p_minute p) (p_second p) (p_micro p) (p_tz p) (p_quarter p) (p_dow p) (p_doy p) (p_pm p) v.
 
 (* int(s) for ASCII input: surrounding blanks, optional sign, at least one digit *)
 Definition is_digit (c : Z) : bool := (48 <=? c) && (c <=? 57).
@@ -265,11 +273,37 @@ Definition parse_offset (value : str) : result Z :=
     | _, _ => Raise E_ValueError
     end).
 
+(* the timestamp tokens.  parsed["timestamp"] = float(text) / d (d = 1 for X, 1000 for x); _check_parsed then computes
+     str_us = str(parsed["timestamp"]); microseconds = int(str_us.split(".")[1].ljust(6, "0")) if "." in str_us else 0
+   and hands the float to helpers.local_time, which starts with math.floor.  For integer text n with |n| < 10^15:
+   float(n) = n exactly (|n| < 2^53); n / 1e3 is the double nearest to the decimal n/1000, which has at most 15 significant
+   digits, so repr() prints exactly that decimal (DBL_DIG = 15; fixed notation since 1e-4 < 0.001 <= |n/1000| < 1e16, or "0.0"):
+   the text after the point is the three digits of |n| mod 1000 without trailing zeros (or "0"), i.e. microseconds =
+   (|n| mod 1000) * 1000 — read off the ABSOLUTE value — while math.floor gives n // 1000.  The correspondence run compares
+   this with the implementation on every timestamp the streams render. *)
+Definition ts_limit : Z := 1000000000000000.
+Definition ts_of_text (d : Z) (value : str) : option (Z * Z) :=
+  if contains 46 value then None                                   (* X with a fraction part: not modelled *)
+  else match py_int value with
+       | Some n =>
+         if Z.abs n <? ts_limit then
+           if d =? 1 then Some (n, 0)
+           else if d =? 1000 then Some (n / 1000, (Z.abs n mod 1000) * 1000)
+           else None
+         else None
+       | None => None
+       end.
+
 (* Formatter._get_parsed_value; zones = the members of pendulum.timezones() that the harness supplies *)
 Definition get_parsed_value (zones : list str) (tok value : str) (p : parsed) : result parsed :=
   match assoc tok parse_tokens with
   | None => Raise E_KeyError
-  | Some (PFloat _) => Unsupported
+  | Some (PFloat d) =>
+    (* "X": float(ts), "x": float(ts) / 1e3.  None of the earlier branches of the elif chain applies to these two tokens
+       ("Y", "D", "H", "m", "s", "S" do not occur in them), so the value lands in parsed["timestamp"] *)
+    if str_eqb tok [88] || str_eqb tok [120] then
+      match ts_of_text d value with Some ts => Ok (set_ts (Some ts) p) | None => Unsupported end
+    else Unsupported
   | Some pk =>
     let num : result Z := match pk with
                           | PInt k c => match py_int value with Some v => Ok (v * k + c) | None => Raise E_ValueError end
@@ -288,7 +322,6 @@ Definition get_parsed_value (zones : list str) (tok value : str) (p : parsed) : 
     else if contains 115 tok then bind num (fun v => Ok (set_second (Some v) p))
     else if contains 83 tok then bind num (fun v => Ok (set_micro (Some v) p))
     else if str_eqb tok [100] || str_eqb tok [69] then bind num (fun v => Ok (set_dow (Some v) p))
-    else if str_eqb tok [88] || str_eqb tok [120] then Unsupported
     else if str_eqb tok T_ZZ || str_eqb tok T_Z then
       match pk with PStr => bind (parse_offset value) (fun off => Ok (set_tz (Some (TzFixed off)) p)) | _ => Unsupported end
     else if str_eqb tok [122] then
@@ -391,7 +424,8 @@ Fixpoint tuple_ge (a : list (option Z)) (b : list Z) : result bool :=
   | _, _ => Ok true
   end.
 
-Definition check_parsed (rs : bool) (p : parsed) (now : pnow) : result validated :=
+(* the part of _check_parsed after the timestamp test *)
+Definition check_parsed_fields (rs : bool) (p : parsed) (now : pnow) : result validated :=
   (* quarter *)
   bind (match p_quarter p with
         | None => Ok (p_year p, p_month p, p_day p)
@@ -448,6 +482,27 @@ Definition check_parsed (rs : bool) (p : parsed) (now : pnow) : result validated
              end in
   let dflt o := match o with Some v => v | None => 0 end in
   Ok (year, month, day, dflt vh, dflt (p_minute p), dflt (p_second p), dflt (p_micro p), p_tz p))))).
+
+(* "If timestamp has been specified we use it and don't go any further": the broken-down UTC time of
+   helpers.local_time(parsed["timestamp"], 0, microseconds) and tz = None, whatever the other tokens said.
+   Seconds outside 0001-01-01T00:00:00 .. 9999-12-31T23:59:59 are outside the modelled fragment (the compiled function
+   computes the year in usize). *)
+Definition ts_min : Z := -62135596800.
+Definition ts_max : Z := 253402300799.
+Definition local_time_of (rs : bool) (secs us : Z) : option (Z * Z * Z * Z * Z * Z * Z) :=
+  if rs then rs_local_time secs 0 us else py_local_time secs 0 us.
+
+Definition check_parsed (rs : bool) (p : parsed) (now : pnow) : result validated :=
+  match p_ts p with
+  | Some (secs, us) =>
+    if (ts_min <=? secs) && (secs <=? ts_max) then
+      match local_time_of rs secs us with
+      | Some (y, m, d, hh, mi, ss, u) => Ok (y, m, d, hh, mi, ss, u, None)
+      | None => Unsupported
+      end
+    else Unsupported
+  | None => check_parsed_fields rs p now
+  end.
 
 (* ------------------------------------------------------------------ Formatter.parse *)
 (* what happens after the pattern matched: re.sub hands every match to _get_parsed_values, then _check_parsed *)
